@@ -32,3 +32,60 @@ func ZZ_C16_strip() {
 	vpAssert(vpEqBytes(added[0], u), "generator-sees-user-key")
 	vpAssert(vpEqBytes(probed[0], u), "probe-sees-user-key")
 }
+
+// C16-partitions: whatever sequence of Add and Generate the table writer
+// issues (a filter partition per data block; versions of one user key may
+// straddle partitions), every partition's filter is built from every user key
+// added while that partition was open.
+type zzPartFilter struct {
+	cur   *[][]byte
+	parts *[][][]byte
+}
+
+func (zzPartFilter) Name() string                           { return "zz.part" }
+func (zzPartFilter) Contains(data, key []byte) bool         { return true }
+func (f zzPartFilter) NewGenerator() filter.FilterGenerator { return zzPartGen{f.cur, f.parts} }
+
+type zzPartGen struct {
+	cur   *[][]byte
+	parts *[][][]byte
+}
+
+func (g zzPartGen) Add(key []byte) { *g.cur = append(*g.cur, append([]byte(nil), key...)) }
+func (g zzPartGen) Generate(b filter.Buffer) {
+	*g.parts = append(*g.parts, *g.cur)
+	*g.cur = nil
+}
+
+func ZZ_C16_partitions() {
+	var cur [][]byte
+	var parts [][][]byte
+	f := iFilter{zzPartFilter{&cur, &parts}}
+	g := f.NewGenerator()
+	var want [][][]byte
+	var open [][]byte
+	for i := 0; i < zzPartAdds; i++ {
+		u := zzBytes(zzKeyLen)
+		g.Add(makeInternalKey(nil, u, zzSeq(), zzKT()))
+		open = append(open, u)
+		if vpChoose(2) == 1 {
+			g.Generate(nil)
+			want = append(want, open)
+			open = nil
+		}
+	}
+	g.Generate(nil)
+	want = append(want, open)
+	vpAssert(len(parts) == len(want), "one-filter-per-generate")
+	for p := range want {
+		for _, u := range want[p] {
+			found := false
+			for _, a := range parts[p] {
+				if len(a) == len(u) && vpEqBytes(a, u) {
+					found = true
+				}
+			}
+			vpAssert(found, "partition-filter-built-from-every-key-added-to-it")
+		}
+	}
+}
